@@ -15,8 +15,11 @@
   addressed by directory path, the parent directory's chain grown or shrunk by every call, refusals
   for lack of space or root slots rolled back): `fat_tree_refines`, `fat_tree_refused_unchanged`,
   `fat_tree_spec_error`, `fat_tree_history`, `fat_tree_mkdir_all`, `fat_tree_space_accounting`.
-  NOT proved: what a directory's bytes are inside that state machine (the images written are
-  parameters; the codec is proved separately, `dir_parse_ser`), open handles that live across calls,
+  What a directory's bytes ARE (Model/Fat/TreeImg.lean: `image` = every directory's chain holds the
+  serialisation of its child list) and re-opening the volume from table + bytes alone:
+  `fat_image_holds_directories`, `fat_reopen_image`, `fat_tree_reopen_history`.
+  NOT proved: that the WriteAt calls of the model's operations produce `image` (the images written
+  are parameters of the operations; tied by the correspondence), open handles that live across calls,
   8.3 aliasing of names, rename across directories (the code refuses it); those clauses are carried
   by the engine's oracle on the real code.
 -/
@@ -28,6 +31,7 @@ import DiskfsModel.Proofs.FatFlatFs
 import DiskfsModel.Proofs.FatTreeStep
 import DiskfsModel.Proofs.FatTreeFree
 import DiskfsModel.Proofs.FatTreeFit
+import DiskfsModel.Proofs.FatTreeImgStep
 import DiskfsModel.Model.Fat.Fs
 import DiskfsModel.Generated.Fat
 namespace Diskfs.Fat.C01
@@ -351,6 +355,59 @@ example : EqnOk exEqn ∧ TGeomOk exTGeom ∧ exTGeom.f.lim - 2 ≤ 8 ∧ TInv e
   ⟨exEqn_ok, exTGeom_ok, by decide, exTree_inv⟩
 example : (tstep exEqn exTGeom 8 exTree (.create [[66]] [67] [])).2 = .ok := by decide
 example : (tstep exEqn exTGeom 8 exTree (.create [[65]] [67] [])).2 = .spec .notdir := by decide
+
+/-! ### E″ — re-opening the volume from its bytes -/
+
+/-- **fat_image_holds_directories**: in the bytes of the volume (`image`: the model's device with
+    every directory serialised into the clusters of its chain, the FAT12/16 root into its fixed
+    region) every directory's chain reads as `entriesToBytes` of its child list — volume label resp.
+    "." (own first cluster) and ".." (parent's first cluster) first, then per child the 8.3 entry
+    with its long-name slots, attribute and date/time words, directory bit, first cluster of the
+    child's chain and size — and every file's chain reads as on the model's device. For every state
+    that meets the invariants `TInv` and `TFit` (kept by every call). -/
+theorem fat_image_holds_directories (eqn) (X : ImgParams) (g : TGeom) (fuel : Nat) (s : DirSt)
+    (hX : ImgParamsOk X g) (hg : TGeomOk g) (hfuel : g.f.lim - 2 ≤ fuel)
+    (h : TInv eqn g s) (hfit : TFit g s) (hok : kidsImgOk X g s.kids) :
+    (∀ j ∈ rootJobs X g s, chainBytes (image X g s) g.f.io j.1 = j.2) ∧
+    (∀ o ∈ kidsFileOwners s.kids, chainBytes (image X g s) g.f.io o = chainBytes s.d g.f.io o) ∧
+    (s.chain = [] → readAt (image X g s) g.rootOff (32 * g.rootCap) = fixedImg g.rootCap (rootEntries X s)) :=
+  image_facts hX hg hfuel h hfit hok
+
+/-- **fat_reopen_image**: "after re-opening the image from its bytes". A reader that has only the
+    table and the bytes of the volume (`reopen`: the root directory's bytes — fixed region, or the
+    chain walked through the FAT from the root cluster — parsed by `parseDir`; volume label, "." and
+    ".." skipped; every entry's chain followed through the FAT from its first cluster, a
+    directory's bytes parsed in turn, a file's bytes cut to the recorded size) builds exactly the
+    tree the abstraction `tabs` reads from the model's state: same names in the same order, same
+    nesting, same file contents. For every table, device, tree, depth of nesting, entry spelling
+    (`enc`: any that the codec carries faithfully, `NameOk`), attribute bits and date/time words. -/
+theorem fat_reopen_image (eqn) (X : ImgParams) (g : TGeom) (fuel depth : Nat) (s : DirSt)
+    (hX : ImgParamsOk X g) (hg : TGeomOk g) (hfuel : g.f.lim - 2 ≤ fuel)
+    (h : TInv eqn g s) (hfit : TFit g s) (hok : kidsImgOk X g s.kids) (hd : kidsDepth s.kids ≤ depth) :
+    reopen g fuel depth s.m (image X g s) (s.chain.headD 0) = tabs g s :=
+  reopen_image hX hg hfuel h hfit hok hd
+
+/-- **fat_tree_reopen_history**: for every REACHABLE state — any history of path-addressed calls
+    (names the codec carries, writes ending below 4 GiB) from a volume that meets the invariants —
+    re-opening the volume from its bytes yields the tree read through the live model, which is the
+    specification replayed over the accepted calls. -/
+theorem fat_tree_reopen_history (eqn) (X : ImgParams) (g : TGeom) (fuel depth : Nat) (ops : List TOp) (s : DirSt)
+    (he : EqnOk eqn) (hX : ImgParamsOk X g) (hg : TGeomOk g) (hfuel : g.f.lim - 2 ≤ fuel) (hb64 : 64 ≤ g.f.io.bpc)
+    (h : TInv eqn g s) (hfit : TFit g s) (hok : kidsImgOk X g s.kids) (hops : ∀ op ∈ ops, OpOk X g op)
+    (hd : kidsDepth (trun eqn g fuel s ops).kids ≤ depth) :
+    reopen g fuel depth (trun eqn g fuel s ops).m (image X g (trun eqn g fuel s ops))
+        ((trun eqn g fuel s ops).chain.headD 0) = tabs g (trun eqn g fuel s ops) ∧
+    tabs g (trun eqn g fuel s ops) = tspecRun eqn g fuel s (tabs g s) ops :=
+  ⟨reopen_image hX hg hfuel (trun_inv he hg hfuel ops s h) (trun_fit he hg hfuel hb64 ops s h hfit)
+      (trun_imgok ops s hops hok) hd,
+    (trun_refines he hg hfuel ops s h).2⟩
+
+/-- non-vacuity: the FAT12 volume `exTree2` (a two-cluster subdirectory holding a file, in the fixed
+    root behind a volume label) meets every hypothesis, so its bytes re-open to its tree -/
+example : reopen exTGeom2 8 2 exTree2.m (image exX exTGeom2 exTree2) (exTree2.chain.headD 0) = tabs exTGeom2 exTree2 :=
+  fat_reopen_image exEqn exX exTGeom2 8 2 exTree2 exX_ok exTGeom2_ok (by decide) exTree2_inv exTree2_fit
+    exTree2_imgok exTree2_depth
+example : OpOk exX exTGeom2 (.create [[66]] [67] []) := by decide
 
 /-! ### D — names -/
 
